@@ -1680,7 +1680,85 @@ def algebra_operands(u):
     return pats, chks
 
 
+def pattern_reuse_probes(ctx: Ctx):
+    """a P chain is a value: deriving a longer pattern from a pattern OBJECT that has already been used as a predicate (its
+    checker was built, it took part in | & ^ ~, it was given to loader / name_mapping) denotes the same predicate as the chain
+    written inline from fresh objects"""
+    import dataclasses
+
+    from adaptix import P, Retort, loader, name_mapping
+    from adaptix._internal.provider.loc_stack_filtering import create_loc_stack_checker
+
+    @dataclasses.dataclass
+    class RUser:
+        name: str
+        nick: str
+
+    @dataclasses.dataclass
+    class RHolder:
+        user: RUser
+    rng = ctx.rng
+    uses = {
+        "build": lambda p: create_loc_stack_checker(p), "or": lambda p: p | P[int], "and": lambda p: p & P[RUser], "invert": lambda p: ~p,
+        "xor": lambda p: p ^ P[str], "loader": lambda p: loader(p, lambda x: x), "name_mapping": lambda p: name_mapping(p, skip=[]),
+        "twice": lambda p: (create_loc_stack_checker(p), create_loc_stack_checker(p)),
+    }
+    bases = {"P[RUser]": lambda: P[RUser], "P[RHolder].user": lambda: P[RHolder].user, "P[RHolder]": lambda: P[RHolder],
+             "P[RUser, RHolder]": lambda: P[RUser, RHolder]}
+    derivations = {
+        ".name": lambda p: p.name, "['name']": lambda p: p["name"], "['name', 'nick']": lambda p: p["name", "nick"],
+        "+ P.name": lambda p: p + P.name, "+ P[str]": lambda p: p + P[str], ".generic_arg(0, int)": lambda p: p.generic_arg(0, int),
+        "[RUser]": lambda p: p[RUser], ".user.name": lambda p: p.user.name,
+    }
+    from adaptix._internal.model_tools.definitions import NoDefault
+    from adaptix._internal.provider import loc_stack_filtering as lsf
+    from adaptix._internal.provider import location as L
+
+    def fld(tp, name):
+        return L.InputFieldLoc(type=tp, field_id=name, default=NoDefault(), metadata={}, is_required=True)
+    th = L.TypeHintLoc
+    stacks = [lsf.LocStack(*locs) for locs in (
+        [th(type=RUser)], [th(type=RUser), fld(str, "name")], [th(type=RUser), fld(str, "nick")], [th(type=int), fld(str, "name")],
+        [th(type=RHolder)], [th(type=RHolder), fld(RUser, "user")], [th(type=RHolder), fld(RUser, "user"), fld(str, "name")],
+        [th(type=RHolder), fld(RUser, "user"), fld(str, "nick")], [th(type=str)], [th(type=RUser), fld(str, "name"), fld(str, "name")],
+        [th(type=RUser), L.GenericParamLoc(type=int, generic_pos=0)], [th(type=RUser), fld(RUser, "user")],
+        [th(type=RUser), th(type=RUser)], [th(type=RHolder), th(type=RUser)], [th(type=RUser), fld(str, "name"), th(type=str)],
+    )]
+    for bname, mk in bases.items():
+        for uname, use in uses.items():
+            for dname, derive in derivations.items():
+                case = {"suite": "pattern-reuse", "base": bname, "use": uname, "derive": dname}
+                ctx.note_case(case, nontrivial=True, kind="pattern-reuse")
+                try:
+                    fresh = create_loc_stack_checker(derive(mk()))
+                    used = mk()
+                    use(used)
+                    reused = create_loc_stack_checker(derive(used))
+                except Exception as e:  # noqa: BLE001
+                    ctx.dist[f"pattern-reuse:raises:{type(e).__name__}"] += 1
+                    continue
+                a = "".join(real_check(fresh, st) for st in stacks)
+                b = "".join(real_check(reused, st) for st in stacks)
+                if a != b:
+                    ctx.fail("pattern-reuse:derived-from-used-pattern", f"{bname}{dname} derived from a {bname} object that was used before "
+                             f"({uname}) answers {b} on the probe stacks; written inline it answers {a}", case)
+                    return
+    # end to end
+    user = P[RUser]
+    r = Retort(recipe=[name_mapping(user, skip=[]), loader(user.name, str.upper)])
+    try:
+        got = r.load({"user": {"name": "alice", "nick": "al"}}, RHolder)
+        if got != RHolder(RUser("ALICE", "al")):
+            ctx.fail("pattern-reuse:derived-from-used-pattern", f"loader(user.name, str.upper) after name_mapping(user, ...) gives {got!r}",
+                     {"suite": "pattern-reuse", "probe": "retort"})
+    except Exception as e:  # noqa: BLE001
+        ctx.fail("pattern-reuse:derived-from-used-pattern", f"loader(user.name, str.upper) after name_mapping(user, ...) raises "
+                 f"{type(e).__name__}", {"suite": "pattern-reuse", "probe": "retort"})
+    del rng
+
+
 def run(ctx: Ctx):
+    pattern_reuse_probes(ctx)
     u = Universe()
     drv = None
     if ctx.driver_ok:
